@@ -487,6 +487,15 @@ impl VersionSet {
                 version_set.append_new_version(new_version);
                 version_set.curr_wal_number = change_manifest.wal_file_number.unwrap();
                 version_set.prev_wal_number = change_manifest.prev_wal_file_number;
+
+                #[cfg(feature = "verif")]
+                crate::verif::note(
+                    "version.install",
+                    &[
+                        version_set.manifest_file_number,
+                        created_new_manifest_file as u64,
+                    ],
+                );
             }
             Err(error) => {
                 log::error!(
@@ -788,6 +797,15 @@ impl VersionSet {
     }
 }
 
+/// Read-only accessors for external runtime monitors.
+#[cfg(feature = "verif")]
+impl VersionSet {
+    /// The number of versions in the version list.
+    pub(crate) fn verif_num_versions(&self) -> usize {
+        self.versions.len()
+    }
+}
+
 /// Private methods
 impl VersionSet {
     /// Add a new version to the version set.
@@ -1030,7 +1048,14 @@ impl VersionSet {
                     prev_sequence_num
                 );
                 let serialized_manifest: Vec<u8> = Vec::from(change_manifest);
+
+                #[cfg(feature = "verif")]
+                crate::verif::pause("manifest.before_append", &[manifest_file_number]);
+
                 manifest_file.lock().append(&serialized_manifest)?;
+
+                #[cfg(feature = "verif")]
+                crate::verif::pause("manifest.after_append", &[manifest_file_number]);
 
                 if is_new_manifest_file {
                     log::info!(
@@ -1047,6 +1072,9 @@ impl VersionSet {
                             ManifestWriteErrorKind::SwapCurrentFile(error.into()),
                         ));
                     }
+
+                    #[cfg(feature = "verif")]
+                    crate::verif::pause("manifest.after_current", &[manifest_file_number]);
                 }
 
                 Ok(())
